@@ -325,6 +325,9 @@ pub fn main(args: &Args) -> i32 {
     let kinds = args.get("kinds", "mem,sql,sqlmulti");
     let corpus = args.get("corpus", "1") == "1";
     let probe = args.get("probe", "0") == "1";
+    // request mix: all four operations, AddVersion only (C02), GetChildVersion against AddVersion (C08)
+    let mix = args.get("mix", "all");
+    let weights: [usize; 4] = match mix.as_str() { "av" => [100, 0, 0, 0], "gcvav" => [50, 50, 0, 0], _ => [50, 15, 22, 13] };
     let f = std::fs::File::create(args.get("out", "/dev/stdout")).expect("cannot create output file");
     let mut w = BufWriter::new(f);
     let kinds: Vec<&str> = kinds.split(',').collect();
@@ -374,7 +377,7 @@ pub fn main(args: &Args) -> i32 {
             schedule = vec![(0, 2), (1, 99), (2, 99), (0, 99)];
         } else {
             for t in 0..nreq {
-                let rq = match r.weighted(&[50, 15, 22, 13]) {
+                let rq = match r.weighted(&weights) {
                     0 => Rq::Av { c, p: pick_id(&mut r), body: vec![65 + t as u8, r.next() as u8] },
                     1 => Rq::Gcv { c, p: pick_id(&mut r) },
                     2 => Rq::As { c, v: pick_id(&mut r), body: vec![0x53, t as u8] },
